@@ -1,7 +1,8 @@
 (* C22 — special-mode injections are never silently lost.  Statements only. *)
+From Coq Require Import String.
 From Coq Require Import List Arith NArith ZArith Bool.
 Import ListNotations.
-From Orca Require Import Util Flat Lowering Tree TreeLower CheckLow CheckSem LowSpecial Flatten NoLoss.
+From Orca Require Import Util Flat Lowering Tree TreeLower CheckLow CheckSem LowSpecial Flatten NoLoss GenAddInstr GenAddInstrProofs.
 
 (* (iv) an injection that cannot be honoured is rejected at the call *)
 Theorem C22_rejected_at_the_call : forall op m x f, accepts op m = false -> add_instr op m x f = None.
@@ -14,6 +15,20 @@ Print Assumptions C22_accepted_otherwise.
 Theorem C22_accepted_reports_special : forall op m x f f' s, add_instr op m x f = Some (f', s) -> s = special_mode m.
 Proof. exact add_instr_special_flag. Qed.
 Print Assumptions C22_accepted_reports_special.
+
+(* Tie to the source by translation: InstrumentationFlag::add_instr as the translator reads it from
+   /repo/src/ir/types.rs on every check (one Gallina arm per InstrumentationMode arm; `panic!` = None) IS the
+   [add_instr] the three theorems above speak about, and the operator lists of is_block_style_op / is_branching_op
+   are the model's classification of its operators (every listed operator has its own constructor). *)
+Theorem C22_translated_add_instr_is_the_model : forall op m x f, gen_add_instr op m x f = add_instr op m x f.
+Proof. exact gen_add_instr_is_add_instr. Qed.
+Print Assumptions C22_translated_add_instr_is_the_model.
+Theorem C22_applicability_lists_are_the_model :
+  (forall o n, In n (fop_names o) ->
+     mem n gen_block_style_ops = is_block_style o /\ mem n gen_branching_ops = is_branching o) /\
+  forallb (fun n => existsb (fun o => mem n (fop_names o)) representative_ops) (gen_block_style_ops ++ gen_branching_ops) = true.
+Proof. exact (conj classification_is_the_source_lists classified_names_have_constructors). Qed.
+Print Assumptions C22_applicability_lists_are_the_model.
 
 (* (ii) nothing accepted is lost by the resolution pass and the emission (Proofs/NoLoss.v on top of
    Proofs/Flatten.v): for every body that parses and every plan without replacements in the fragment of the
